@@ -12,12 +12,7 @@ CONSTANTS
   Orders = {"boa"}
   Rule = "file_tunit_ignored"
   Export = FALSE
-INVARIANT OnePerLayer
-INVARIANT PositiveFinite
 INVARIANT WithinControlRange
-INVARIANT ConstantWhenControlsEqual
-INVARIANT FileTransparent
-INVARIANT FitsInv
 CONSTRAINT Emit
 
 CHECK_DEADLOCK FALSE
